@@ -316,6 +316,7 @@ def run(tier, seed):
     items = corpusio.messages(stride=stride, offset=seed)
     res = runner.run_enumerated(items, check_corpus, workers, chunk=2)
     std.add_results(rep, res, 'corpus')
+    std.run_boundary(rep, tier, check_case)
     # subsets with about 100 000 values: the flat text numbers its lines in a five-character column
     res = runner.run_enumerated([100001] if tier == 'quick' else [99999, 100000, 100001, 100002, 131073], check_large, workers, chunk=1)
     for case, out, excl in res:
